@@ -47,6 +47,15 @@ func connInv(c *Conn) bool {
 	if c.copts == nil && mw.flate {
 		return false
 	}
+	// internal buffers do not overlap
+	if c.client && (gvcRegion(c.writeBuf) == gvcRegion(c.readControlBuf[:]) || gvcRegion(c.writeBuf) == gvcRegion(c.writeHeaderBuf[:]) || gvcRegion(c.writeBuf) == gvcRegion(c.readHeaderBuf[:])) {
+		return false
+	}
+	// the buffered reader of a connection reads for that connection (ghost ownership,
+	// used to state that blocking reads happen with an armed context)
+	if c.br != nil && (ghconn(c.br) != c || io.Reader(c.br) == specRand()) {
+		return false
+	}
 	return true
 }
 
@@ -112,4 +121,11 @@ func specWriteInv(c *Conn) bool {
 		return false
 	}
 	return true
+}
+
+// connReady: representation invariant plus a usable write side and transport; what
+// every operation that may write (also the read path: pongs, close echo, error closes)
+// relies on, together with "no lock of the write side is held by this goroutine".
+func connReady(c *Conn) bool {
+	return connInv(c) && specWriteInv(c) && c.rwc != nil
 }
